@@ -65,6 +65,18 @@ type SliceV struct {
 	// slice was loaded from ("" = not yet owned by a field). Arrays referenced
 	// from different fields are assumed (and, at stores, checked) not to alias.
 	Region string
+	// Owner is the object whose owned field holds this slice: the elements of
+	// an owned array are indexed by their owner (each owner has its own array:
+	// the ownership invariant), not by the array's reference.
+	Owner string
+}
+
+// eb is the reference under which the elements are stored in the heap.
+func (s SliceV) eb() string {
+	if s.Region != "" && s.Owner != "" {
+		return s.Owner
+	}
+	return s.Base
 }
 
 var regionTypes = map[string]types.Type{}
